@@ -231,6 +231,7 @@ func genC23(seed uint64, tier string) *Case {
 	from := []string{"n1", "n2", "n3", "n0", "x9"}
 	for i := 0; i < g.Intn(8); i++ {
 		s := Step{Op: "re", T: from[g.Intn(len(from))], S: []string{"ok", "ok", "ok", "failed", "undecodable", "wrongtype", "empty", "sparse", "sparse-empty"}[g.Intn(9)], K: g.Intn(3), F: g.Bool(0.1)}
+		s.J = g.Pick(0, 0, 1)
 		for k := 0; k < g.Intn(4); k++ {
 			s.X = append(s.X, g.Intn(4))
 		}
@@ -325,7 +326,14 @@ func execC23(r *Run) {
 					keys = append(keys, keyNames[x%4])
 				}
 			}
-			payload = encAny(mtKeyResponse, &wNodeKeyResponse{Result: true, Keys: keys, PrimaryKey: prim})
+			ok := &wNodeKeyResponse{Result: true, Keys: keys, PrimaryKey: prim}
+			if s.J == 1 {
+				// a node with more keys than fit in a reply says so in the message of a
+				// successful reply: it is still a successful reply
+				ok.Message = fmt.Sprintf("Truncated key list response, showing first %d of 99 keys", len(keys))
+				r.Fault("truncated-listing-reply")
+			}
+			payload = encAny(mtKeyResponse, ok)
 		case "failed":
 			// a failed reply says so in Result; its message may be empty (that is what a node
 			// sends when it cannot decode the request)
